@@ -5,12 +5,12 @@ import (
 	"fmt"
 	"hash"
 	"hash/fnv"
-	"reflect"
-	"unsafe"
 	"os"
+	"reflect"
 	"strings"
 	"testing"
 	"testing/synctest"
+	"unsafe"
 
 	"github.com/AdguardTeam/AdGuardHome/verifsim/kernel"
 	"pgregory.net/rapid"
